@@ -29,10 +29,13 @@ type pt struct {
 
 // some is a value of T together with a second, different value used as the prior content of
 // the decode target.
-func roundTrip[T any](r *mc.Registry, name string, dom []T) {
+func roundTrip[T any](r *mc.Registry, name string, mkDom func() []T) {
 	r.Seq("roundtrip/Option["+name+"]", func(x *mc.X) {
+		// the domain is built afresh in every execution: a decoder that wrote through to the
+		// storage of a prior value must not leak into later executions
+		dom := mkDom()
 		i := x.Choose(len(dom)+1, "value") // the last alternative is None
-		prior := x.Choose(3, "prior")      // 0: zero Option, 1: Some(dom[0]), 2: Some(dom[len-1])
+		prior := x.Choose(3, "prior")      // 0: zero Option, 1: Some(dom[0]), 2: Some(dom[len/2]) (a non-empty container)
 		path := x.Choose(5, "container")   // 0: value, 1: pointer, 2: slice element, 3: map value, 4: struct field
 		var v fp.Option[T]
 		if i < len(dom) {
@@ -45,7 +48,7 @@ func roundTrip[T any](r *mc.Registry, name string, dom []T) {
 		case 1:
 			pv = fp.Some(dom[0])
 		case 2:
-			pv = fp.Some(dom[len(dom)-1])
+			pv = fp.Some(dom[len(dom)/2])
 		}
 		key := fmt.Sprintf("roundtrip/Option[%s]", name)
 		// what encoding/json emits for the payload itself
@@ -167,10 +170,12 @@ type target struct {
 	priors int
 }
 
-func decodeInto[T any](priors []T, direct bool) func(b []byte, p int) (string, string) {
+// decodeInto: mk builds prior content number p afresh (no storage is shared between the
+// decode target and the copy it is compared with afterwards).
+func decodeInto[T any](mk func(p int) T, direct bool) func(b []byte, p int) (string, string) {
 	return func(b []byte, p int) (verdict, detail string) {
-		t := clone(priors[p])
-		before := clone(priors[p])
+		t := mk(p)
+		before := mk(p)
 		var err error
 		pan := mc.Catch(func() {
 			if direct {
@@ -192,38 +197,20 @@ func decodeInto[T any](priors []T, direct bool) func(b []byte, p int) (string, s
 	}
 }
 
-// clone copies through reflection deeply enough for the prior values used here.
-func clone[T any](v T) T {
-	b := reflect.ValueOf(&v).Elem()
-	return deep(b).Interface().(T)
-}
-
-func deep(v reflect.Value) reflect.Value {
-	switch v.Kind() {
-	case reflect.Slice:
-		if v.IsNil() {
-			return v
-		}
-		n := reflect.MakeSlice(v.Type(), v.Len(), v.Len())
-		reflect.Copy(n, v)
-		return n
-	}
-	return v
-}
-
 // recTarget applies the struct oracle: encoding/json itself decodes a struct field by field
 // and keeps the fields decoded before an error, so "unchanged on error" is demanded per
 // Option field: after a failed decode an Option field holds its prior content or the result
 // of successfully decoding one of the document's values for that key; an input that is not
 // valid JSON (rejected before any field is touched) or not an object leaves every field unchanged.
 func recTarget(b []byte, p int) (verdict, detail string) {
-	priors := []rec{
-		{},
-		{A: fp.Some(7), S: fp.Some("p"), L: fp.Some([]int{9}), N: 5},
+	mk := func() rec {
+		if p == 0 {
+			return rec{}
+		}
+		return rec{A: fp.Some(7), S: fp.Some("p"), L: fp.Some([]int{9}), N: 5}
 	}
-	t := priors[p]
-	t.L = clone(t.L)
-	before := priors[p]
+	t := mk()
+	before := mk()
 	var err error
 	pan := mc.Catch(func() { err = json.Unmarshal(b, &t) })
 	if pan != nil {
@@ -309,17 +296,28 @@ func objectMembers(b []byte) []member {
 	return out
 }
 
+// prior: content 0 is None, content 1 is Some(v()) with v() built afresh on every call.
+func prior[T any](v func() T) func(p int) fp.Option[T] {
+	return func(p int) fp.Option[T] {
+		if p == 0 {
+			return fp.None[T]()
+		}
+		return fp.Some(v())
+	}
+}
+
 func targets() []target {
 	return []target{
-		{"Option[int]", decodeInto([]fp.Option[int]{fp.None[int](), fp.Some(7)}, false), 2},
-		{"Option[string]", decodeInto([]fp.Option[string]{fp.None[string](), fp.Some("p")}, false), 2},
-		{"Option[[]int]", decodeInto([]fp.Option[[]int]{fp.None[[]int](), fp.Some([]int{9})}, false), 2},
-		{"Option[Option[int]]", decodeInto([]fp.Option[fp.Option[int]]{fp.None[fp.Option[int]](), fp.Some(fp.Some(7))}, false), 2},
-		{"Unit", decodeInto([]fp.Unit{{}}, false), 1},
+		{"Option[int]", decodeInto(prior(func() int { return 7 }), false), 2},
+		{"Option[string]", decodeInto(prior(func() string { return "p" }), false), 2},
+		{"Option[[]int]", decodeInto(prior(func() []int { return []int{9, 8} }), false), 2},
+		{"Option[Option[int]]", decodeInto(prior(func() fp.Option[int] { return fp.Some(7) }), false), 2},
+		{"Unit", decodeInto(func(int) fp.Unit { return fp.Unit{} }, false), 1},
 		{"struct", recTarget, 2},
-		{"Option[int].UnmarshalJSON", decodeInto([]fp.Option[int]{fp.None[int](), fp.Some(7)}, true), 2},
-		{"Option[string].UnmarshalJSON", decodeInto([]fp.Option[string]{fp.None[string](), fp.Some("p")}, true), 2},
-		{"Unit.UnmarshalJSON", decodeInto([]fp.Unit{{}}, true), 1},
+		{"Option[int].UnmarshalJSON", decodeInto(prior(func() int { return 7 }), true), 2},
+		{"Option[string].UnmarshalJSON", decodeInto(prior(func() string { return "p" }), true), 2},
+		{"Option[[]int].UnmarshalJSON", decodeInto(prior(func() []int { return []int{9, 8} }), true), 2},
+		{"Unit.UnmarshalJSON", decodeInto(func(int) fp.Unit { return fp.Unit{} }, true), 1},
 	}
 }
 
@@ -445,7 +443,7 @@ func robustness(r *mc.Registry) {
 		"valid_documents":     validDocs,
 		"mutations":           "every one-byte replacement by / insertion of an alphabet byte and every one-byte deletion",
 		"decode_targets":      targetNames(ts),
-		"prior_target_values": "empty and preloaded (Some(7), Some(\"p\"), Some([9]), struct with all Option fields set)",
+		"prior_target_values": "empty and preloaded (Some(7), Some(\"p\"), Some([9 8]), Some(Some(7)), struct with all Option fields set)",
 	}
 }
 
@@ -538,14 +536,14 @@ func main() {
 			"encoding/json is correct; for the hand-written struct its documented field-by-field decoding is the reference (fields decoded before an error keep their new value)",
 			"values whose own JSON encoding is null (nil slice, nil map, None inside Some) are excluded inside Some, as the statement says; NaN/Inf and invalid UTF-8 are excluded as not faithfully encodable",
 		}
-		roundTrip(r, "int", []int{0, 1, -1, 42, math.MaxInt32, math.MinInt32, math.MaxInt64, math.MinInt64})
-		roundTrip(r, "string", []string{"", "a", "null", "nil", "0", `"`, `\`, "\u0000", "</script>", "<>&", "\n\t\r", "é", "日本", "  ", "\U0001F600", " n", "{\"a\":1}"})
-		roundTrip(r, "bool", []bool{false, true})
-		roundTrip(r, "float64", []float64{0, math.Copysign(0, -1), 1, -1.5, 0.1, 1e21, 1e-7, math.MaxFloat64, math.SmallestNonzeroFloat64, -math.MaxFloat64, float64(math.MaxInt64)})
-		roundTrip(r, "[]int", [][]int{{}, {1}, {1, 2, 3}, {math.MinInt64, 0, math.MaxInt64}, nil})
-		roundTrip(r, "map[string]int", []map[string]int{{}, {"a": 1}, {"": 0, "k\"": 2, "é": -3}, nil})
-		roundTrip(r, "struct", []pt{{}, {1, "a"}, {-1, "\"\\\u0000<"}, {math.MaxInt64, "null"}})
-		roundTrip(r, "Option[int]", []fp.Option[int]{fp.Some(0), fp.Some(1), fp.Some(math.MinInt64), fp.None[int]()})
+		roundTrip(r, "int", func() []int { return []int{0, 1, -1, 42, math.MaxInt32, math.MinInt32, math.MaxInt64, math.MinInt64} })
+		roundTrip(r, "string", func() []string { return []string{"", "a", "null", "nil", "0", `"`, `\`, "\u0000", "</script>", "<>&", "\n\t\r", "é", "日本", "  ", "\U0001F600", " n", "{\"a\":1}"} })
+		roundTrip(r, "bool", func() []bool { return []bool{false, true} })
+		roundTrip(r, "float64", func() []float64 { return []float64{0, math.Copysign(0, -1), 1, -1.5, 0.1, 1e21, 1e-7, math.MaxFloat64, math.SmallestNonzeroFloat64, -math.MaxFloat64, float64(math.MaxInt64)} })
+		roundTrip(r, "[]int", func() [][]int { return [][]int{{}, {1}, {1, 2, 3}, {math.MinInt64, 0, math.MaxInt64}, nil} })
+		roundTrip(r, "map[string]int", func() []map[string]int { return []map[string]int{{}, {"a": 1}, {"": 0, "k\"": 2, "é": -3}, nil} })
+		roundTrip(r, "struct", func() []pt { return []pt{{}, {1, "a"}, {-1, "\"\\\u0000<"}, {math.MaxInt64, "null"}} })
+		roundTrip(r, "Option[int]", func() []fp.Option[int] { return []fp.Option[int]{fp.Some(0), fp.Some(1), fp.Some(math.MinInt64), fp.None[int]()} })
 		unitScenario(r)
 		robustness(r)
 		r.Extra["uncovered"] = []string{
